@@ -34,7 +34,7 @@ STATIC = ('Static analysis of the MIR rustc produces for the real cargo build (r
 
 PROPERTIES = {
     'C01': P('ordered collection equals sequential iteration',
-             ['C01-KEY', 'C01-APPEND', 'C01-MERGE', 'C01-RESERVE', 'C01-COMPOSE', 'C05-VISIT', 'C05-NOSKIP', 'C05-SOURCE', 'S2', 'S4', 'S5', 'S1', 'C15-CLAMP', 'C15-CHUNKCAP', 'C15-CHUNKCAP-U', 'C01-FRESH', 'C05-WORKER', 'C05-ACCEPT', 'C05-FEED', 'C05-CONSUME', 'C06-MUT', 'C05-FALLIBLE', 'C01-KEEP', 'C01-NOSHUFFLE', 'C01-CONJ', 'C05-ENTRY', 'C06-GROW'],
+             ['C01-KEY', 'C01-APPEND', 'C01-MERGE', 'C01-RESERVE', 'C01-COMPOSE', 'C05-VISIT', 'C05-NOSKIP', 'C05-SOURCE', 'S2', 'S4', 'S5', 'S1', 'C15-CLAMP', 'C15-CHUNKCAP', 'C15-CHUNKCAP-U', 'C01-FRESH', 'C05-WORKER', 'C05-ACCEPT', 'C05-FEED', 'C05-CONSUME', 'C06-MUT', 'C05-FALLIBLE', 'C01-KEEP', 'C01-NOSHUFFLE', 'C01-CONJ', 'C05-ENTRY', 'C06-GROW', 'C09-EMPTY'],
              STATIC + 'Decided: merge keys / positional slots are the source positions delivered by the pull that produced the value; '
              'per-thread buffers are append-only; def-use facts of the k-way merge; capacity reservation dominates the positional path; '
              'stage order in composed closures; all per-thread results reach the merge; ordered terminals never reach an unordered kernel; '
@@ -60,12 +60,12 @@ PROPERTIES = {
              'iterators enter only through the serialising wrapper, built from the whole collection; skip_to_end is raised only by find tasks holding '
              'a match; a chain carrying a user closure is never consumed by len/size_hint/is_empty. Not decided: ConIterOfIter really serialises next().'),
     'C06': P('collect_into appends to, and never disturbs, existing contents',
-             ['C06-RECV', 'C06-MUT', 'C06-OFFSET', 'C06-GROW', 'C06-BRIDGE', 'C01-RESERVE', 'C01-KEY', 'C05-FEED', 'C05-CONSUME', 'C01-NOSHUFFLE', 'C01-MERGE'],
+             ['C06-RECV', 'C06-MUT', 'C06-OFFSET', 'C06-GROW', 'C06-BRIDGE', 'C01-RESERVE', 'C01-KEY', 'C05-FEED', 'C05-CONSUME', 'C01-NOSHUFFLE', 'C01-MERGE', 'C09-EMPTY'],
              STATIC + 'Decided: a by-value target is never dropped on a normal path and the result depends on it; &mut targets only receive '
              'appends; the write offset is the target length taken before the run; the reservation before every positional conversion covers existing '
              '+ incoming elements; nothing is appended onto a FixedVec directly; no bridge vector the crate builds by a data conversion goes through the reservation. Not decided: dependency conversions keep contents.'),
     'C07': P('collect_x returns a permutation of the sequential result',
-             ['C07-FRAG', 'C07-TASK', 'C07-SEQ', 'C01-APPEND', 'C05-VISIT', 'C05-NOSKIP', 'S1', 'S2', 'S4', 'S5', 'C15-CLAMP', 'C15-CHUNKCAP', 'C15-CHUNKCAP-U', 'C05-SOURCE', 'C05-WORKER', 'C05-ACCEPT', 'C05-FEED', 'C05-CONSUME', 'C05-FALLIBLE', 'C01-KEEP', 'C01-NOSHUFFLE', 'C01-CONJ', 'C05-ENTRY'],
+             ['C07-FRAG', 'C07-TASK', 'C07-SEQ', 'C01-APPEND', 'C05-VISIT', 'C05-NOSKIP', 'S1', 'S2', 'S4', 'S5', 'C15-CLAMP', 'C15-CHUNKCAP', 'C15-CHUNKCAP-U', 'C05-SOURCE', 'C05-WORKER', 'C05-ACCEPT', 'C05-FEED', 'C05-CONSUME', 'C05-FALLIBLE', 'C01-KEEP', 'C01-NOSHUFFLE', 'C01-CONJ', 'C05-ENTRY', 'C07-BUFSITE'],
              STATIC + 'Decided: every per-thread fragment returned by the runner is appended unmodified; tasks only append; sequential mode '
              'is the ordered collect. Not decided: multiset equality over schedules; append keeps all fragments (T3).'),
     'C08': P('NumThreads::Max(n) bounds concurrency; Max(1) runs on the calling thread',
@@ -96,7 +96,7 @@ PROPERTIES = {
              'and the library itself never calls a setter.',
              assumes=('T1', 'T4')),
     'C13': P('owned elements are dropped exactly once on all non-panicking paths',
-             ['C13-INVENTORY', 'C13-PAIR', 'C13-UNWRAP', 'C13-LEAK', 'C06-RECV', 'C05-VISIT', 'C15-CHUNKCAP', 'C01-RESERVE'],
+             ['C13-INVENTORY', 'C13-PAIR', 'C13-UNWRAP', 'C13-LEAK', 'C06-RECV', 'C05-VISIT', 'C15-CHUNKCAP', 'C01-RESERVE', 'C13-BUFSITE'],
              STATIC + 'Decided: the inventory of ownership primitives is exactly the reviewed one; every raw read is paired with the '
              'length reset and its slot is read once; bags are unwrapped only through the counts-match check; leak primitives only at '
              'the re-owned site. Not decided: drop counts themselves; dependency drop behaviour (T3).'),
@@ -108,7 +108,7 @@ PROPERTIES = {
              '(a dead worker advances nothing) and no blocking primitive is called; no chain closure is moved into the serialised source of a '
              'concurrent iterator. Not decided: thread::scope re-raises (T2).'),
     'C15': P('parameters never change a result or make a computation fail',
-             ['C15-OBLIG', 'C15-CLAMP', 'C15-ALLOC', 'C15-CHUNKCAP', 'C15-CHUNKCAP-U', 'C15-STACK', 'C15-TIES', 'C01-KEY', 'C01-MERGE', 'C02-MINIDX', 'C02-FIRST', 'C03-THREAD', 'C03-OUTER', 'C03-MAYBE', 'C04-THREAD', 'C04-SUM', 'C05-VISIT', 'C07-FRAG', 'S2', 'S4', 'S5', 'C15-TERMINATE', 'C01-RESERVE', 'C06-BRIDGE', 'C05-SEED', 'C02-EXHAUST', 'C01-NOSHUFFLE', 'C03-OPARG', 'C05-ENTRY', 'C06-GROW'],
+             ['C15-OBLIG', 'C15-CLAMP', 'C15-ALLOC', 'C15-CHUNKCAP', 'C15-CHUNKCAP-U', 'C15-STACK', 'C15-TIES', 'C01-KEY', 'C01-MERGE', 'C02-MINIDX', 'C02-FIRST', 'C03-THREAD', 'C03-OUTER', 'C03-MAYBE', 'C04-THREAD', 'C04-SUM', 'C05-VISIT', 'C07-FRAG', 'S2', 'S4', 'S5', 'C15-TERMINATE', 'C01-RESERVE', 'C06-BRIDGE', 'C05-SEED', 'C02-EXHAUST', 'C01-NOSHUFFLE', 'C03-OPARG', 'C05-ENTRY', 'C06-GROW', 'C15-BUFSITE'],
              STATIC + 'Decided: every panic site (overflow/div-by-zero assertion, expect, assert) of the parameter-resolution slice that '
              'depends on the configuration is discharged by a dominating guard, a constructor invariant, an arithmetic lemma or a stated '
              'assumption; every size handed to an allocating API and, for sources of known length, every resolved chunk size is bounded by the '
@@ -116,7 +116,7 @@ PROPERTIES = {
              extra=['A1 remaining_len reported by the concurrent iterator <= its initial length (T3)',
                     'A2 available_parallelism() <= 2^20 and collection lengths <= isize::MAX']),
     'C16': P('computations are lazy: nothing runs before the terminal call',
-             ['C16', 'S3', 'S7', 'C12-STORE', 'C12-NOSET'],
+             ['C16', 'S3', 'S7', 'C12-STORE', 'C12-NOSET', 'S1'],
              STATIC + 'Decided completely (sound over-approximation): call-graph reachability from every transformation / setter / source '
              'constructor to terminals, kernels, pulls and user-closure calls, not searching through another transformation; the eight '
              'documented-lazy-but-eager sites are known findings, any other is a violation. "Under the parameters in effect at that call": '
